@@ -135,10 +135,22 @@ C03_Fixed(c) ==
 (* a controlled junction must not also be fixed by a feeder or by a second active controller (over-determined) *)
 WellPosedPC(net, e) == Len(FixValues(net, e.cj)) = 0 /\
     \A f \in ERows(net) : (f.tbl = "press_control" /\ f.ca /\ f.svc /\ f.cj = e.cj) => f.lab = e.lab
+(* a compressor with forward flow produces its absolute pressure ratio rn/rd: rd * (p_to + p_amb(to)) = rn * (p_from + p_amb(from)); *)
+(* the ambient pressures are the oracle values of the documented barometric formula at the junction heights                      *)
+(* (a compressor between junctions at different heights additionally carries the weight of the gas column, like every branch:  *)
+(* the exact ratio is only promised for a machine whose two ends are at the same height)                                        *)
+JAmb(net, l) == (CHOOSE j \in JRows(net) : j.lab = l).pamb
+JH(net, l) == (CHOOSE j \in JRows(net) : j.lab = l).h
+Scale(x, k) == Norm(k * x[2], k * x[3])
+ForwardFlow(e) == IsNum(e.mf) /\ Less(<<0, 0, 1000>>, e.mf)           \* more than 1e-6 kg/s
+CompressorOK(net, e) ==
+    LET pa == Add(e.pf, JAmb(net, e.a))  pb == Add(e.pt, JAmb(net, e.b))
+    IN Near(Scale(pb, e.rd), Scale(pa, e.rn), C03_Tol * (e.rn + e.rd))
 C03_Branches(c) ==
     LET R == HydReached(c.net) IN
     {<<"C03.set_point", e.tbl, ToString(e.lab)>> : e \in {e \in ERows(c.net) : e.hydall = "num" /\
         \/ (e.tbl = "flow_control" /\ e.ca /\ ~Near(e.mf, e.set1, C03_Tol))
+        \/ (e.tbl = "compressor" /\ e.rd > 0 /\ ForwardFlow(e) /\ JH(c.net, e.a) = JH(c.net, e.b) /\ ~CompressorOK(c.net, e))
         \/ (e.tbl = "circ_pump_mass" /\ ~Near(e.mf, e.set1, C03_Tol))
         \/ (e.tbl = "circ_pump_pressure" /\ ~Near(Sub(e.pt, e.pf), e.set1, C03_Tol))
         \/ (e.tbl = "press_control" /\ e.ca /\ e.svc /\ IsNum(JP(c.net, e.cj)) /\ WellPosedPC(c.net, e)
